@@ -64,7 +64,15 @@ def _gen(rng, tier):
     ops = set(common.PAST_OPS if pure_past else common.BOUNDED_FUTURE_OPS)
     cfg = sg.GenCfg(vars=vars_, ops=ops, max_depth=rng.randint(2, 6 if big else 5), max_bound=rng.choice([1, 2, 3, 4] + ([6] if big else [])),
                     p_reuse=rng.choice([0.0, 0.0, 0.2]), p_loose=rng.choice([0.08, 0.08, 0.5]))
+    long_windows = rng.random() < 0.02
+    if long_windows:
+        # second-long bounds at millisecond sampling: one or two windows of 64-100 samples, horizon below 250 samples
+        cfg.max_bound = rng.choice([64, 70, 100])
+        cfg.hi_min = 60
+        cfg.max_depth = 2
     ast = sg.gen_formula(rng, cfg)
+    if long_windows and sg.horizon(ast) > 250:
+        ast = sg.gen_formula(rng, sg.GenCfg(vars=vars_, ops=ops, max_depth=1, max_bound=70, hi_min=64))
     if not pure_past and rng.random() < 0.5 and sg.horizon(ast) > 0:
         # force a sibling with a different horizon
         other = sg.gen_formula(rng, sg.GenCfg(vars=vars_, ops=ops, max_depth=2, max_bound=2))
